@@ -1,5 +1,5 @@
-(* Proofs/NDPOptions.v — totality of newParseOptions and of every option unmarshal
-   outside the zero-length-option class; exact refutations inside it. *)
+(* Proofs/NDPOptions.v — totality of newParseOptions (with the zero-length guard of the #12
+   repair) and of every option unmarshal. *)
 From PV Require Import Base.Prelude Base.Slice Model.NDPOptions Proofs.HandlersTac.
 Open Scope N_scope.
 
@@ -110,177 +110,56 @@ Section WithOracle.
             | sdone ].
   Qed.
 
-  (* the zero-length option *)
-  Lemma zero_slice b i : wf b -> (i <= len b)%nat ->
-    sl b i (i + 0) = Ok (mkSlice (skipn i (arr b)) 0).
-  Proof. intros Hw Hi. rewrite sl_ok by slen. f_equal. f_equal. lia. Qed.
-
-  Lemma opt_step_zero_panic fuel t a : panics_type t = true ->
-    opt_step lbl_ok fuel t (mkSlice a 0) = Panic.
-  Proof.
-    intros Ht. unfold opt_step, panics_type in *.
-    destruct (t =? 1) eqn:E1; [reflexivity|]. destruct (t =? 2) eqn:E2; [reflexivity|]. cbn [orb].
-    destruct (t =? 5) eqn:E5; [reflexivity|].
-    destruct (t =? 3) eqn:E3; [reflexivity|].
-    destruct (t =? 24) eqn:E24; [reflexivity|].
-    destruct (t =? 25) eqn:E25; [reflexivity|].
-    cbn in Ht. discriminate.
-  Qed.
-
-  Lemma opt_step_zero_loop fuel t a : panics_type t = false ->
-    opt_step lbl_ok fuel t (mkSlice a 0) = Ok tt.
-  Proof.
-    intros Ht. unfold opt_step, panics_type in *.
-    destruct (t =? 1) eqn:E1; [discriminate|]. destruct (t =? 2) eqn:E2; [discriminate|]. cbn [orb].
-    destruct (t =? 5) eqn:E5; [cbn in Ht; rewrite ?orb_true_r in Ht; discriminate|].
-    destruct (t =? 3) eqn:E3; [discriminate|].
-    destruct (t =? 24) eqn:E24; [cbn in Ht; rewrite ?orb_true_r in Ht; discriminate|].
-    destruct (t =? 25) eqn:E25; [cbn in Ht; rewrite ?orb_true_r in Ht; discriminate|].
-    destruct (t =? 31); reflexivity.
-  Qed.
-
-  (* fixed point of the loop body: a zero-length option of type 31 / unknown type *)
-  Lemma parse_opts_spin b i : wf b -> (i + 2 <= len b)%nat ->
-    nth (i + 1) (arr b) 0 = 0 -> panics_type (nth i (arr b) 0) = false ->
-    forall fuel, parse_opts lbl_ok fuel b i = Fuel.
-  Proof.
-    intros Hw Hi Hz Ht fuel. induction fuel as [|f IH]; [reflexivity|].
-    cbn [parse_opts]. repeat sstep. cbn [len].
-    destruct (Nat.eqb_spec (len b - i) 0); [lia|].
-    destruct (Nat.ltb_spec (len b - i) 2); [lia|].
-    rewrite Hz. change (N.to_nat 0 * 8)%nat with 0%nat.
-    destruct (Nat.ltb_spec (len b - i) 0); [lia|].
-    replace (i + 0 - i)%nat with 0%nat by lia.
-    rewrite opt_step_zero_loop by exact Ht. cbn [bind].
-    rewrite Nat.add_0_r. exact IH.
-  Qed.
-
-  Lemma parse_opts_zero_panic b i : wf b -> (i + 2 <= len b)%nat ->
-    nth (i + 1) (arr b) 0 = 0 -> panics_type (nth i (arr b) 0) = true ->
-    forall fuel, (0 < fuel)%nat -> parse_opts lbl_ok fuel b i = Panic.
-  Proof.
-    intros Hw Hi Hz Ht fuel Hf. destruct fuel as [|f]; [lia|].
-    cbn [parse_opts]. repeat sstep. cbn [len].
-    destruct (Nat.eqb_spec (len b - i) 0); [lia|].
-    destruct (Nat.ltb_spec (len b - i) 2); [lia|].
-    rewrite Hz. change (N.to_nat 0 * 8)%nat with 0%nat.
-    destruct (Nat.ltb_spec (len b - i) 0); [lia|].
-    replace (i + 0 - i)%nat with 0%nat by lia.
-    rewrite opt_step_zero_panic by exact Ht. reflexivity.
-  Qed.
-
-  (* main lemma: the outcome class is decided by the zero-length-option walk *)
-  Lemma parse_opts_classified n : forall b i fuel,
+  (* main lemma: every iteration ends the walk or advances by l >= 8 *)
+  Lemma parse_opts_safe n : forall b i fuel,
     wf b -> (i <= len b)%nat -> (len b - i <= n)%nat -> (n < fuel)%nat ->
-    match zero_opt n b i with
-    | ZNone => safe (parse_opts lbl_ok fuel b i)
-    | ZPanic => parse_opts lbl_ok fuel b i <> Fuel
-    | ZLoop => parse_opts lbl_ok fuel b i <> Panic
-    end.
+    safe (parse_opts lbl_ok fuel b i).
   Proof.
     induction n as [|n IH]; intros b i fuel Hw Hi Hn Hf.
-    - cbn [zero_opt]. destruct fuel as [|f]; [lia|]. cbn [parse_opts].
-      sstep. cbn [len]. destruct (Nat.eqb_spec (len b - i) 0); [sdone|lia].
-    - cbn [zero_opt].
-      destruct (Nat.ltb_spec (len b - i) 2) as [H2|H2].
-      + destruct fuel as [|f]; [lia|]. cbn [parse_opts]. sstep. cbn [len].
-        destruct (Nat.eqb_spec (len b - i) 0); [sdone|].
-        destruct (Nat.ltb_spec (len b - i) 2); [sdone|lia].
-      + destruct (nth (i + 1) (arr b) 0 =? 0) eqn:Hz.
-        * apply N.eqb_eq in Hz.
-          destruct (panics_type (nth i (arr b) 0)) eqn:Ht.
-          -- rewrite parse_opts_zero_panic by (assumption || lia). discriminate.
-          -- rewrite parse_opts_spin by (assumption || lia). discriminate.
-        * destruct fuel as [|f]; [lia|].
-          destruct (Nat.ltb_spec (len b - i) (N.to_nat (nth (i + 1) (arr b) 0) * 8)) as [Hl|Hl].
-          -- cbn [parse_opts]. repeat sstep. cbn [len].
-             destruct (Nat.eqb_spec (len b - i) 0); [sdone|].
-             destruct (Nat.ltb_spec (len b - i) 2); [sdone|].
-             destruct (Nat.ltb_spec (len b - i) (N.to_nat (nth (i + 1) (arr b) 0) * 8)); [sdone|lia].
-          -- set (l := (N.to_nat (nth (i + 1) (arr b) 0%N) * 8)%nat) in *.
-             assert (Hl8 : (8 <= l)%nat) by (unfold l; lia).
-             assert (Hrun : parse_opts lbl_ok (S f) b i =
-                            bind (opt_step lbl_ok (len b) (nth i (arr b) 0) (mkSlice (skipn i (arr b)) l))
-                                 (fun _ => parse_opts lbl_ok f b (i + l))).
-             { cbn [parse_opts]. repeat sstep. cbn [len].
-               destruct (Nat.eqb_spec (len b - i) 0); [lia|].
-               destruct (Nat.ltb_spec (len b - i) 2); [lia|].
-               fold l.
-               destruct (Nat.ltb_spec (len b - i) l); [lia|].
-               replace (i + l - i)%nat with l by lia. reflexivity. }
-             rewrite Hrun.
-             assert (Hstep : safe (opt_step lbl_ok (len b) (nth i (arr b) 0) (mkSlice (skipn i (arr b)) l))).
-             { apply opt_step_safe; [|cbn [len]; lia].
-               unfold opt_shape, wf, cap. cbn [len arr]. rewrite skipn_length, nth_skipn_add.
-               unfold wf, cap in Hw. fold l. lia. }
-             specialize (IH b (i + l)%nat f Hw ltac:(lia) ltac:(lia) ltac:(lia)).
-             destruct (opt_step lbl_ok (len b) (nth i (arr b) 0) (mkSlice (skipn i (arr b)) l)) eqn:Eo;
-               cbn [bind].
-             ++ exact IH.
-             ++ destruct (zero_opt n b (i + l)); first [sdone | discriminate].
-             ++ exfalso. exact (not_safe_Panic Hstep).
-             ++ exfalso. exact (not_safe_Fuel Hstep).
+    - destruct fuel as [|f]; [lia|]. cbn [parse_opts].
+      rewrite slfrom_ok by lia. cbn [bind len]. destruct (Nat.eqb_spec (len b - i) 0); [sdone|lia].
+    - destruct fuel as [|f]; [lia|]. cbn [parse_opts].
+      rewrite slfrom_ok by lia. cbn [bind len].
+      destruct (Nat.eqb_spec (len b - i) 0); [sdone|].
+      destruct (Nat.ltb_spec (len b - i) 2); [sdone|].
+      rewrite !idx_ok by lia. cbn [bind].
+      set (l := (N.to_nat (nth (i + 1) (arr b) 0%N) * 8)%nat) in *.
+      destruct (Nat.eqb_spec l 0); [sdone|].
+      destruct (Nat.ltb_spec (len b - i) l); [sdone|].
+      assert (Hl8 : (8 <= l)%nat) by (unfold l in *; lia).
+      rewrite sl_ok by (unfold wf in Hw; lia). cbn [bind].
+      replace (i + l - i)%nat with l by lia.
+      apply safe_bind.
+      + apply opt_step_safe; [|cbn [len]; lia].
+        unfold opt_shape, wf, cap. cbn [len arr]. rewrite skipn_length, nth_skipn_add.
+        unfold wf, cap in Hw. fold l. lia.
+      + intros _ _. apply IH; [assumption|lia|lia|lia].
   Qed.
 
   (* ---- exported statements ---- *)
 
-  Theorem new_parse_options_partial b : wf b ->
-    known_C08_ndp_zero b = ZNone ->
+  Theorem new_parse_options_total b : wf b ->
     forall fuel, (len b < fuel)%nat -> safe (new_parse_options lbl_ok fuel b).
   Proof.
-    intros Hw Hk fuel Hf. unfold new_parse_options, known_C08_ndp_zero in *.
-    pose proof (parse_opts_classified (len b) b 0%nat fuel Hw ltac:(lia) ltac:(lia) Hf) as H.
-    rewrite Hk in H. exact H.
-  Qed.
-
-  Theorem new_parse_options_panic_only_known b : wf b ->
-    forall fuel, (len b < fuel)%nat ->
-    (new_parse_options lbl_ok fuel b = Panic -> known_C08_ndp_zero_panic b = true) /\
-    (new_parse_options lbl_ok fuel b = Fuel -> known_C08_ndp_zero_loop b = true).
-  Proof.
-    intros Hw fuel Hf. unfold new_parse_options, known_C08_ndp_zero_panic, known_C08_ndp_zero_loop, known_C08_ndp_zero.
-    pose proof (parse_opts_classified (len b) b 0%nat fuel Hw ltac:(lia) ltac:(lia) Hf) as H.
-    destruct (zero_opt (len b) b 0); split; intros E; rewrite E in H;
-      first [ reflexivity | exfalso; first [exact (not_safe_Panic H) | exact (not_safe_Fuel H) | congruence] ].
-  Qed.
-
-  (* the loop class really never terminates: every zero-length option of type 31 or of an
-     unknown type, at any position the walk reaches directly (here: position 0) *)
-  Theorem new_parse_options_loop_refuted : forall t rest,
-    panics_type t = false ->
-    forall fuel, new_parse_options lbl_ok fuel (of_bytes (t :: 0 :: rest)) = Fuel.
-  Proof.
-    intros t rest Ht fuel. unfold new_parse_options.
-    apply parse_opts_spin; cbn; try lia; try reflexivity; try exact Ht.
-    unfold wf, cap; cbn; lia.
-  Qed.
-
-  Theorem new_parse_options_panic_refuted : forall t rest,
-    panics_type t = true ->
-    forall fuel, (0 < fuel)%nat -> new_parse_options lbl_ok fuel (of_bytes (t :: 0 :: rest)) = Panic.
-  Proof.
-    intros t rest Ht fuel Hf. unfold new_parse_options.
-    apply parse_opts_zero_panic; cbn; try lia; try reflexivity; try exact Ht.
-    unfold wf, cap; cbn; lia.
+    intros Hw fuel Hf. unfold new_parse_options.
+    apply (parse_opts_safe (len b)); [assumption|lia|lia|assumption].
   Qed.
 
   (* exported entry points *)
-  Theorem ra_options_partial p : wf p ->
-    known_C08_ndp_zero (mkSlice (skipn 16 (arr p)) (len p - 16)) = ZNone ->
+  Theorem ra_options_total p : wf p ->
     forall fuel, (len p < fuel)%nat -> safe (ra_options lbl_ok fuel p).
   Proof.
-    intros Hw Hk fuel Hf. unfold ra_options.
+    intros Hw fuel Hf. unfold ra_options.
     destruct (Nat.leb_spec (len p) 16); [sdone|].
-    sstep. apply new_parse_options_partial; [slen|exact Hk|cbn [len]; lia].
+    sstep. apply new_parse_options_total; [slen|cbn [len]; lia].
   Qed.
 
-  Theorem rs_options_partial p : wf p ->
-    known_C08_ndp_zero (mkSlice (skipn 24 (arr p)) (len p - 24)) = ZNone ->
+  Theorem rs_options_total p : wf p ->
     forall fuel, (len p < fuel)%nat -> safe (rs_options lbl_ok fuel p).
   Proof.
-    intros Hw Hk fuel Hf. unfold rs_options.
+    intros Hw fuel Hf. unfold rs_options.
     destruct (Nat.leb_spec (len p) 24); [sdone|].
-    sstep. apply new_parse_options_partial; [slen|exact Hk|cbn [len]; lia].
+    sstep. apply new_parse_options_total; [slen|cbn [len]; lia].
   Qed.
 End WithOracle.
 
@@ -294,8 +173,13 @@ Definition sample_opts : bytes :=
   [24;2;64;0;0;0;1;0;32;1;13;184;0;0;0;1].
 
 Example sample_opts_nonvacuous :
-  bytes_ok sample_opts /\ known_C08_ndp_zero (of_bytes sample_opts) = ZNone /\
-  new_parse_options (fun _ => true) 200 (of_bytes sample_opts) = Ok tt.
+  bytes_ok sample_opts /\ new_parse_options (fun _ => true) 200 (of_bytes sample_opts) = Ok tt.
 Proof.
-  split; [apply bytes_okb_spec; vm_compute; reflexivity|]. split; vm_compute; reflexivity.
+  split; [apply bytes_okb_spec; vm_compute; reflexivity|]. vm_compute; reflexivity.
 Qed.
+
+(* the former defect class (#12): a zero-length option is now an error *)
+Example zero_length_option_is_error :
+  new_parse_options (fun _ => true) 20 (of_bytes [31; 0; 0; 0; 0; 0; 0; 0]) = Err EOther /\
+  new_parse_options (fun _ => true) 20 (of_bytes [1; 0; 0; 0; 0; 0; 0; 0]) = Err EOther.
+Proof. split; vm_compute; reflexivity. Qed.
